@@ -28,16 +28,16 @@ def run(ctx, col, tier):
              "which are the bracket/separator types the parser tests for; everything else is a "
              "number or a literal; a number is the conversion of the whole word", floor=5)
     col.rule("R-LABEL", "tree labels accepted by the parser = labels the converter maps to a node "
-             "type (same case folding); axon -> axon type, dendrite -> a dendrite type", floor=3)
+             "type (same case folding); axon -> axon type, dendrite -> a dendrite type", floor=3, shape=True)
     col.rule("R-COUNTER", "conversion walk: one fresh id per point (read, then a single +1), "
              "every column appended exactly once per point, the recorded parent is the id handed "
              "down by the enclosing point, children receive this point's id; headers pass the "
-             "parent through; colours and comments yield no node", floor=6)
+             "parent through; colours and comments yield no node", floor=6, shape=True)
     col.rule("R-ORDER", "document order: LIFO frames with children pushed in reverse (or in-order "
-             "recursion); a point's coordinates/radius go to the columns of the same name", floor=3)
+             "recursion); a point's coordinates/radius go to the columns of the same name", floor=3, shape=True)
     col.rule("R-POINT", "a point is exactly four numbers then a closing bracket, stored in "
              "x, y, z, r order; alternatives of a split hang on the point before the split; "
-             "after a split the chain resumes from that point", floor=4)
+             "after a split the chain resumes from that point", floor=4, shape=True)
     col.rule("R-EXC", "every parse failure surfaces as an exception: the wrapper's handlers "
              "re-raise on every path and no context manager on the conversion path suppresses",
              floor=3)
